@@ -74,6 +74,8 @@ def pe(e):
         return f"{pe(e[1])}[{e[2]}]"
     if k == "call":
         return f"{e[1]}(" + ", ".join(pe(x) for x in e[2]) + ")"
+    if k == "egofoo":
+        return "ego.foo"
     if k == "resample":
         return f"resample({e[1]})"
     if k == "staruni":
@@ -179,6 +181,7 @@ class Ref:
         self.params = []  # (name, node)
         self.objs = []  # (xnode, foonode)
         self.reqs = []  # (node, Fraction prob)
+        self.ego = None
         nobj = 0
         for s in prog["stmts"]:
             k = s[0]
@@ -194,10 +197,11 @@ class Ref:
             elif k == "obj":
                 x = self.op(lambda v, b=100 * nobj: float(b + v % 7), self.build(s[2]))
                 nobj += 1
-                if s[1]:  # Scene.objects lists the ego first, then the others as created
-                    self.objs.insert(0, (x, self.build(s[3])))
-                else:
-                    self.objs.append((x, self.build(s[3])))
+                self.objs.append((x, self.build(s[3])))
+                if s[1]:  # `ego = new Object ...` (the ego may be re-assigned later)
+                    self.ego = len(self.objs) - 1
+        if self.ego is not None:  # Scene.objects lists the (final) ego first, then the others
+            self.objs.insert(0, self.objs.pop(self.ego))
 
     def op(self, fn, *args):
         """Operator node; folded to a constant when every operand is a compile-time constant,
@@ -261,6 +265,8 @@ class Ref:
             if e[1] == "f2":
                 return self.tup([args[0], self.op(BIN["+"], args[0], Node("const", 1))])
             raise ValueError(e[1])
+        if k == "egofoo":  # the ego *as bound when the statement is executed*
+            return self.objs[self.ego][1]
         if k == "resample":
             src = self.env[e[1]]
             if src.kind in ("uni", "disc", "dr"):
@@ -448,11 +454,15 @@ def programs(draw):
         if scal:
             choices += ["v", "v", "v"]
         if pure:
+            if have_ego[0]:
+                choices += ["egofoo", "egofoo"]
             if depth > 0 and scal:
                 choices += ["v", "pbin", "pbin", "pabs", "pcall"]
             k = draw(st.sampled_from(choices))
             if k == "c":
                 return ["c", draw(SMALL)]
+            if k == "egofoo":
+                return ["egofoo"]
             if k == "v":
                 return ["v", draw(st.sampled_from(scal))]
             if k == "pbin":
@@ -532,10 +542,10 @@ def programs(draw):
 
     nstmts = draw(st.integers(2, 9))
     nparams = 0
-    have_ego = False
+    have_ego = [False]
     kinds = ["leaf"] + [draw(st.sampled_from(
         ["let", "let", "leaf", "leaf", "leaf", "param", "param", "req", "soft", "obj",
-         "tuplet", "rebind"])) for _ in range(nstmts)]
+         "tuplet", "rebind", "egoswap"])) for _ in range(nstmts)]
     for k in kinds:
         if k == "let":
             name = fresh()
@@ -570,9 +580,22 @@ def programs(draw):
             p = draw(st.sampled_from([[1, 2], [1, 4], [3, 4], [1, 8], [0, 1], [1, 1]]))
             stmts.append(["soft", p, boolean(0)])
         elif k == "obj":
-            ego = (not have_ego) and draw(st.booleans())
-            have_ego = have_ego or ego
+            ego = draw(st.booleans())  # may re-assign the ego after a require mentioned it
             stmts.append(["obj", ego, scalar(1), scalar(1)])
+            have_ego[0] = have_ego[0] or ego
+        elif k == "egoswap":
+            # an ego, a requirement that mentions it, then another object becomes the ego:
+            # the requirement keeps constraining the ego it was stated for
+            stmts.append(["obj", True, scalar(1), scalar(1)])
+            have_ego[0] = True
+            kind = draw(st.sampled_from(["req", "req", "soft"]))
+            cond = ["cmp", draw(st.sampled_from(["<", "<=", ">", ">=", "!="])), ["egofoo"],
+                    scalar(1, True)]
+            if kind == "req":
+                stmts.append(["req", cond])
+            else:
+                stmts.append(["soft", draw(st.sampled_from([[1, 2], [1, 4], [3, 4]])), cond])
+            stmts.append(["obj", True, scalar(1), scalar(1)])
         elif k == "rebind" and scal:
             # rebind an existing name (possibly after a `require` captured it)
             name = draw(st.sampled_from(scal))
@@ -629,7 +652,9 @@ def judge(prog, max_leaves=20000, iter_leaves=30):
     feats = features(prog)
     out.cls(*sorted(f for f in feats if f in (
         "resample", "staruni", "starcall", "dr", "disc", "uni", "stmt:soft", "stmt:obj",
-        "mode2D", "call", "idx")))
+        "mode2D", "call", "idx", "egofoo")))
+    if sum(1 for t in prog["stmts"] if t[0] == "obj" and t[1]) >= 2:
+        out.cls("ego-reassigned")
     src = emit(prog)
     # reference first: programs whose reference evaluation raises (e.g. a type error in plain
     # Python) are outside the fragment and discarded
